@@ -91,6 +91,18 @@ func checkC05(c *Ctx) {
 				cfg := fmt.Sprintf("mtype%d/mac1.%d/%s", mt, ver, shape.name)
 				c05One(c, cfg, mt, uplink, ver, cmds, shape.fopts, shape.port, shape.appLen)
 			}
+			// the largest FOpts field (15 bytes) and the class C commands (CID 0x20), in FOpts and on port 0
+			full := []c05Cmd{{0x03, "LinkADRReqPayload", 4}, {0x03, "LinkADRReqPayload", 4}, {0x03, "LinkADRReqPayload", 4}}
+			classC := []c05Cmd{{0x20, "DeviceModeConfPayload", 1}, {0x02, "LinkCheckAnsPayload", 2}}
+			if uplink {
+				full = []c05Cmd{{0x06, "DevStatusAnsPayload", 2}, {0x06, "DevStatusAnsPayload", 2}, {0x06, "DevStatusAnsPayload", 2}, {0x06, "DevStatusAnsPayload", 2}, {0x06, "DevStatusAnsPayload", 2}}
+				classC = []c05Cmd{{0x20, "DeviceModeIndPayload", 1}, {0x03, "LinkADRAnsPayload", 1}}
+			}
+			if mt == 2 || mt == 3 {
+				c05One(c, fmt.Sprintf("mtype%d/mac1.%d/fopts15-commands/app1", mt, ver), mt, uplink, ver, full, true, 2, 1)
+				c05One(c, fmt.Sprintf("mtype%d/mac1.%d/fopts-classc/app1", mt, ver), mt, uplink, ver, classC, true, 2, 1)
+				c05One(c, fmt.Sprintf("mtype%d/mac1.%d/port0-classc", mt, ver), mt, uplink, ver, classC, false, 1, 0)
+			}
 		}
 	}
 	c05Authenticated(c)
